@@ -25,6 +25,8 @@ TypeOf(v) ==
   CASE v = "null"                          -> "nil"
     [] v \in {"true", "false"}             -> "bool"
     [] SubSeq(v, 1, 1) = "\""              -> "string"
+    [] SubSeq(v, 1, 1) = "{"               -> "map[string]interface {}"
+    [] SubSeq(v, 1, 1) = "["               -> "[]interface {}"
     [] OTHER                               -> "float64"
 
 Has(d, p) == p \in DOMAIN d /\ d[p] # Absent
